@@ -93,7 +93,16 @@ def c11(ctx):
     ctx.gotest("cc", "^TestVerifC11", race=True, timeout=3000)
 
 
+def c15(ctx):
+    ctx.gotest("tracer", "^TestVerifC15", race=True, timeout=3000)
+
+
 SPECS = {
+    "C15": {"fn": c15, "level": "exploration",
+            "technique": "runtime monitoring under the race detector: scripted inner net.Conn (every Read/Write result logged) around the real TracingHTTP2Conn; generated multi-stream HTTP/2 exchanges re-interleaved and re-partitioned, compared with an independent per-stream trace model; seeded structure-aware mutation and ordering faults for the no-crash/transparency clause",
+            "text": "Well-formed exchanges (1-6 concurrent streams, HEADERS/CONTINUATION, DATA cutting envelopes anywhere, request/response trailers, RST_STREAM from either side, REFUSED_STREAM+retry, GOAWAY, shared HPACK state) are fed through the real connection tracer on client and server side under 4 schedules and random Read/Write partitions; each named stream must yield exactly one trace equal to the model (request line, own headers, messages in order, status, trailers, end/reset). 10^4-10^6 mutated, random and mis-ordered streams must never panic and every Read/Write must return exactly what the inner conn did.",
+            "note": "Real grpc-go traffic through the tracer is exercised by C01's --trace runs on race-built binaries; a stream cut exactly after an envelope prefix may or may not report a zero-length partial event.",
+            "assumptions": ["x/net/http2 Framer and hpack encoder generate well-formed frames"]},
     "C11": {"fn": c11, "level": "fault_enumeration",
             "technique": "runtime monitoring under the race detector: fault enumeration over the real runTestCasesForServer with a scripted server process (every byte-offset truncation of its response, write/close errors, exit after k sends, stall) and a scripted client runner; oracle over results.outcomes at quiescence",
             "text": "The real runTestCasesForServer is run against scripted processStarter/process/clientRunner objects; server faults are enumerated over every position (each byte offset of the response, each k of n sends, each stdin offset sampled) and combined with client faults and answer kinds delivered before, during and after the server's death; the oracle checks one outcome per case, verdict preservation for answered cases (token-tagged), setup errors for the rest, abort on every started process, stderr attribution and bounded termination.",
